@@ -70,6 +70,37 @@ class MGraph(Model):
     def edges(self):
         return [(u, v) for u, vs in self._c._fanout.items() for v in sorted(vs)]
 
+    # the adjacency internals the graph-function models (MNx) read
+    @property
+    def _node(self):
+        return self._c._attrs
+
+    @property
+    def _pred(self):
+        return self.pred
+
+    @property
+    def _succ(self):
+        return self.succ
+
+    def descendants(self, n):
+        seen, stack = set(), list(self._c._fanout.get(n, ()))
+        while stack:
+            x = stack.pop()
+            if x not in seen:
+                seen.add(x)
+                stack.extend(self._c._fanout.get(x, ()))
+        return seen
+
+    def ancestors(self, n):
+        seen, stack = set(), list(self._c._fanin.get(n, ()))
+        while stack:
+            x = stack.pop()
+            if x not in seen:
+                seen.add(x)
+                stack.extend(self._c._fanin.get(x, ()))
+        return seen
+
     @property
     def pred(self):
         return {n: {p: {} for p in sorted(self._c._fanin.get(n, ()))} for n in self._c._attrs}
